@@ -227,7 +227,14 @@ func (fc *fileCtx) walkBody(decl *ast.FuncDecl, ftype *ast.FuncType, body *ast.B
 		}
 	}
 	visitStmts = func(list []ast.Stmt, ftype *ast.FuncType) {
-		for _, s := range list {
+		for i, s := range list {
+			if i+1 < len(list) && s.Pos() >= *busyUntil {
+				if es := fc.rewritePair(s, list[i+1]); len(es) > 0 {
+					*edits = append(*edits, es...)
+					*busyUntil = list[i+1].End()
+					continue
+				}
+			}
 			visitStmt(s, ftype)
 		}
 	}
@@ -419,17 +426,16 @@ func (fc *fileCtx) rewriteStmt(s ast.Stmt, ftype *ast.FuncType) []srcEdit {
 	case *ast.ExprStmt:
 		if call, ok := ast.Unparen(x.X).(*ast.CallExpr); ok {
 			if h := fc.candidateCall(call); h != nil {
-				if txt, ok := fc.inlineStmt(h, call, x.Pos(), "", nil, false); ok {
+				if txt, ok := fc.inlineSite(&callSite{h: h, call: call, at: x.Pos(), errIdx: -1}); ok {
 					return []srcEdit{{fc.off(x.Pos()), fc.off(x.End()), txt + fc.nz.lineDir(x.End())}}
 				}
 			}
 		}
 	case *ast.AssignStmt:
-		if len(x.Rhs) == 1 {
+		if len(x.Rhs) == 1 && (x.Tok == token.DEFINE || x.Tok == token.ASSIGN) {
 			if call, ok := ast.Unparen(x.Rhs[0]).(*ast.CallExpr); ok {
 				if h := fc.candidateCall(call); h != nil && h.results == len(x.Lhs) {
-					lhs := fc.text(x.Lhs[0].Pos(), x.Lhs[len(x.Lhs)-1].End())
-					if txt, ok := fc.inlineStmt(h, call, x.Pos(), lhs+" "+x.Tok.String()+" ", nil, false); ok {
+					if txt, ok := fc.inlineSite(&callSite{h: h, call: call, at: x.Pos(), lhs: x.Lhs, tok: x.Tok, errIdx: -1}); ok {
 						return []srcEdit{{fc.off(x.Pos()), fc.off(x.End()), txt + fc.nz.lineDir(x.End())}}
 					}
 				}
@@ -469,29 +475,36 @@ func (fc *fileCtx) rewriteStmt(s ast.Stmt, ftype *ast.FuncType) []srcEdit {
 		// if <init>; cond {  with the helper call as the whole init
 		if x.Init != nil {
 			var call *ast.CallExpr
-			prefix := ""
+			cs := &callSite{at: x.Init.Pos(), errIdx: -1}
 			switch in := x.Init.(type) {
 			case *ast.AssignStmt:
-				if len(in.Rhs) == 1 {
+				if len(in.Rhs) == 1 && (in.Tok == token.DEFINE || in.Tok == token.ASSIGN) {
 					call, _ = ast.Unparen(in.Rhs[0]).(*ast.CallExpr)
-					if call != nil {
-						prefix = fc.text(in.Lhs[0].Pos(), in.Lhs[len(in.Lhs)-1].End()) + " " + in.Tok.String() + " "
-						if h := fc.candidateCall(call); h == nil || h.results != len(in.Lhs) {
-							call = nil
-						}
-					}
+					cs.lhs, cs.tok = in.Lhs, in.Tok
 				}
 			case *ast.ExprStmt:
 				call, _ = ast.Unparen(in.X).(*ast.CallExpr)
 			}
-			if call != nil {
-				if h := fc.candidateCall(call); h != nil {
-					if txt, ok := fc.inlineStmt(h, call, x.Init.Pos(), prefix, nil, false); ok {
-						return []srcEdit{
-							{fc.off(x.Pos()), fc.off(x.Cond.Pos()), "{\n" + txt + fc.nz.lineDir(x.Cond.Pos()) + "if "},
-							{fc.off(x.End()), fc.off(x.End()), "\n}" + fc.nz.lineDir(x.End())},
-						}
+			h := fc.candidateCall(call)
+			if h == nil || (cs.lhs != nil && h.results != len(cs.lhs)) {
+				return nil
+			}
+			cs.h, cs.call = h, call
+			// `if ..., err := H(); err != nil { terminating }` without else: the failing returns of the
+			// helper continue straight into (a copy of) the error branch
+			if x.Else == nil && isTerminating(x.Body) && cs.lhs != nil {
+				if idx := fc.errTestIndex(x.Cond, cs.lhs); idx >= 0 {
+					cs.cont, cs.errIdx, cs.ifPos = x.Body, idx, x.Pos()
+					if txt, ok := fc.inlineSite(cs); ok {
+						return []srcEdit{{fc.off(x.Pos()), fc.off(x.End()), "{\n" + txt + "\n}" + fc.nz.lineDir(x.End())}}
 					}
+					cs.cont, cs.errIdx = nil, -1
+				}
+			}
+			if txt, ok := fc.inlineSite(cs); ok {
+				return []srcEdit{
+					{fc.off(x.Pos()), fc.off(x.Cond.Pos()), "{\n" + txt + fc.nz.lineDir(x.Cond.Pos()) + "if "},
+					{fc.off(x.End()), fc.off(x.End()), "\n}" + fc.nz.lineDir(x.End())},
 				}
 			}
 			return nil
@@ -871,6 +884,23 @@ func (fc *fileCtx) plan(h *helper, call *ast.CallExpr, at token.Pos) *inlPlan {
 	if i != len(args) {
 		return nil
 	}
+	// every variable the helper declares itself gets a fresh name: nothing it declares can then
+	// capture a name of the calling context (the caller's assignment targets, the copied error branch)
+	ast.Inspect(hf.Body, func(n ast.Node) bool {
+		id, ok := n.(*ast.Ident)
+		if !ok || id.Name == "_" {
+			return true
+		}
+		o := hinfo.Defs[id]
+		v, isVar := o.(*types.Var)
+		if o == nil || !isVar || v.IsField() {
+			return true
+		}
+		if _, done := pl.rename[o]; !done {
+			pl.rename[o] = nz.fresh("_" + id.Name)
+		}
+		return true
+	})
 	// results
 	for k := 0; k < sig.Results().Len(); k++ {
 		ts := fc.typeString(sig.Results().At(k).Type())
@@ -913,6 +943,19 @@ func (pl *inlPlan) namedResultDecls(fc *fileCtx) (decls string, names []string, 
 // render returns the helper's source between a and b with the renames applied
 // and (unless keepReturns) every return / top-level defer rewritten.
 func (pl *inlPlan) render(a, b token.Pos, label string, named []string, keepReturns bool) string {
+	return pl.renderWith(a, b, named, keepReturns, func(x *ast.ReturnStmt, vals string, defers string, sub func(x, y token.Pos) string) string {
+		txt := "{ "
+		if vals != "" {
+			txt += strings.Join(pl.rvars, ", ") + " = " + vals + "; "
+		}
+		return txt + defers + "goto " + label + " }"
+	})
+}
+
+// renderWith is render with the replacement of each return statement computed
+// by ret (vals: the rendered result expressions, "" for a helper without
+// results; defers: the calls of the top-level defers that precede the return).
+func (pl *inlPlan) renderWith(a, b token.Pos, named []string, keepReturns bool, ret func(x *ast.ReturnStmt, vals, defers string, sub func(x, y token.Pos) string) string) string {
 	hfc := pl.hfc
 	hinfo := pl.h.f.Info()
 	var renames []srcEdit
@@ -962,20 +1005,19 @@ func (pl *inlPlan) render(a, b token.Pos, label string, named []string, keepRetu
 			stmts = append(stmts, srcEdit{hfc.off(x.Pos()), hfc.off(x.End()), "_ = 0"})
 			return false
 		case *ast.ReturnStmt:
-			txt := "{ "
+			vals := ""
 			switch {
 			case len(pl.rvars) == 0:
 			case len(x.Results) == 0:
-				txt += strings.Join(pl.rvars, ", ") + " = " + strings.Join(named, ", ") + "; "
+				vals = strings.Join(named, ", ")
 			default:
 				var rs []string
 				for _, r := range x.Results {
 					rs = append(rs, sub(r.Pos(), r.End()))
 				}
-				txt += strings.Join(pl.rvars, ", ") + " = " + strings.Join(rs, ", ") + "; "
+				vals = strings.Join(rs, ", ")
 			}
-			txt += deferCalls(x.Pos()) + "goto " + label + " }"
-			stmts = append(stmts, srcEdit{hfc.off(x.Pos()), hfc.off(x.End()), txt})
+			stmts = append(stmts, srcEdit{hfc.off(x.Pos()), hfc.off(x.End()), ret(x, vals, deferCalls(x.Pos()), sub)})
 			return false
 		}
 		return true
@@ -1022,47 +1064,187 @@ func (pl *inlPlan) bindings() string {
 	return s
 }
 
-// inlineStmt builds the replacement for a statement `prefix H(args)` (prefix is
-// "" for a bare call, "a, b := " / "a, b = " otherwise).
-func (fc *fileCtx) inlineStmt(h *helper, call *ast.CallExpr, at token.Pos, prefix string, _ []string, _ bool) (string, bool) {
-	pl := fc.plan(h, call, at)
+// callSite describes a statement-level call of a helper.
+type callSite struct {
+	h    *helper
+	call *ast.CallExpr
+	at   token.Pos
+	// assignment targets (nil for a bare call); tok is token.DEFINE or token.ASSIGN
+	lhs     []ast.Expr
+	lhsText []string // used instead of lhs for generated targets (all new)
+	tok     token.Token
+	// error continuation: the statement is (followed by) `if <err> != nil { cont }` with a terminating
+	// body and no else; errIdx is the position of that error among the targets
+	cont   *ast.BlockStmt
+	errIdx int
+	ifPos  token.Pos
+}
+
+func isTerminating(b *ast.BlockStmt) bool {
+	if b == nil || len(b.List) == 0 || len(b.List) > 8 {
+		return false
+	}
+	ok := true
+	ast.Inspect(b, func(n ast.Node) bool {
+		if _, isL := n.(*ast.LabeledStmt); isL {
+			ok = false
+		}
+		return ok
+	})
+	if !ok {
+		return false
+	}
+	switch x := b.List[len(b.List)-1].(type) {
+	case *ast.ReturnStmt:
+		return true
+	case *ast.BranchStmt:
+		return x.Tok == token.CONTINUE || x.Tok == token.BREAK || x.Tok == token.GOTO
+	case *ast.ExprStmt:
+		if c, isC := x.X.(*ast.CallExpr); isC {
+			if id, isId := c.Fun.(*ast.Ident); isId && id.Name == "panic" {
+				return true
+			}
+		}
+	}
+	return false
+}
+
+// inlineSite builds the replacement text for the statement(s) of cs.
+func (fc *fileCtx) inlineSite(cs *callSite) (string, bool) {
+	h := cs.h
+	pl := fc.plan(h, cs.call, cs.at)
 	if pl == nil {
 		return "", false
 	}
 	nz := fc.nz
-	label := nz.fresh("end")
-	decls, named, _ := pl.namedResultDecls(fc)
-	body := pl.render(h.f.Body.Lbrace+1, h.f.Body.Rbrace, label, named, false)
-	var b strings.Builder
-	b.WriteString(nz.lineDir(at))
-	for i, rv := range pl.rvars {
-		b.WriteString("var " + rv + " " + pl.rtypes[i] + "\n")
+	info := fc.pk.Info
+	// targets the helper's returns assign to
+	var targets []string
+	var decls string
+	direct := true
+	switch {
+	case cs.lhsText != nil:
+		for i, t := range cs.lhsText {
+			targets = append(targets, t)
+			decls += "var " + t + " " + pl.rtypes[i] + "\n"
+		}
+	case cs.lhs != nil:
+		for i, l := range cs.lhs {
+			id, isId := l.(*ast.Ident)
+			if !isId {
+				direct = false
+				break
+			}
+			targets = append(targets, id.Name)
+			if cs.tok == token.DEFINE && id.Name != "_" && info.Defs[id] != nil {
+				decls += "var " + id.Name + " " + pl.rtypes[i] + "\n"
+			}
+		}
+	default:
+		for range pl.rvars {
+			targets = append(targets, "_")
+		}
 	}
+	after := ""
+	if !direct {
+		// assignment to something other than plain variables: go through fresh result variables
+		targets, decls = nil, ""
+		for i, rv := range pl.rvars {
+			targets = append(targets, rv)
+			decls += "var " + rv + " " + pl.rtypes[i] + "\n"
+		}
+		after = fc.text(cs.lhs[0].Pos(), cs.lhs[len(cs.lhs)-1].End()) + " " + cs.tok.String() + " " + strings.Join(pl.rvars, ", ")
+	}
+	allBlank := true
+	for _, t := range targets {
+		if t != "_" {
+			allBlank = false
+		}
+	}
+	assign := func(vals string) string {
+		if vals == "" {
+			return ""
+		}
+		if allBlank && len(targets) > 0 {
+			return strings.Join(targets, ", ") + " = " + vals + "; "
+		}
+		return strings.Join(targets, ", ") + " = " + vals + "; "
+	}
+	lEnd, lTest, lOK := nz.fresh("end"), nz.fresh("test"), nz.fresh("ok")
+	usedEnd, usedTest, usedOK := false, false, false
+	ndecls, named, _ := pl.namedResultDecls(fc)
+	cont := cs.cont
+	if cont != nil && (!direct || cs.errIdx < 0 || cs.errIdx >= len(targets) || targets[cs.errIdx] == "_") {
+		cont = nil
+	}
+	contText := ""
+	if cont != nil {
+		contText = fc.text(cont.Lbrace, cont.Rbrace+1)
+	}
+	hinfo := h.f.Info()
+	body := pl.renderWith(h.f.Body.Lbrace+1, h.f.Body.Rbrace, named, false, func(x *ast.ReturnStmt, vals, defers string, sub func(x, y token.Pos) string) string {
+		if cont != nil && len(x.Results) == len(targets) {
+			e := x.Results[cs.errIdx]
+			switch {
+			case isNilIdent(hinfo, e):
+				usedOK = true
+				return "{ " + assign(vals) + defers + "goto " + lOK + " }"
+			case !h.f.mayBeNilError(e):
+				// a certain failure: what the caller does on failure happens right here
+				return "{ " + assign(vals) + defers + nz.lineDir(cont.Lbrace) + contText + nz.lineDir(x.End()) + "}"
+			}
+			usedTest = true
+			return "{ " + assign(vals) + defers + "goto " + lTest + " }"
+		}
+		if cont != nil {
+			usedTest = true
+			return "{ " + assign(vals) + defers + "goto " + lTest + " }"
+		}
+		usedEnd = true
+		return "{ " + assign(vals) + defers + "goto " + lEnd + " }"
+	})
+	var b strings.Builder
+	b.WriteString(nz.lineDir(cs.at))
+	b.WriteString(decls)
 	b.WriteString("{\n")
 	b.WriteString(pl.bindings())
-	b.WriteString(decls)
+	b.WriteString(ndecls)
 	b.WriteString(nz.lineDir(h.f.Body.Lbrace))
 	b.WriteString(body)
-	b.WriteString(nz.lineDir(at))
-	// a helper that can fall off its end (no results)
+	b.WriteString(nz.lineDir(cs.at))
 	if len(pl.rvars) == 0 {
-		b.WriteString("goto " + label + "\n")
+		// a helper without results can fall off its end
+		usedEnd = true
+		b.WriteString("goto " + lEnd + "\n")
 	}
-	b.WriteString("}\n" + label + ":\n")
-	switch {
-	case prefix != "":
-		b.WriteString(prefix + strings.Join(pl.rvars, ", "))
-	case len(pl.rvars) > 0:
-		us := make([]string, len(pl.rvars))
-		for i := range us {
-			us[i] = "_"
+	b.WriteString("}\n")
+	if cont != nil {
+		if usedTest {
+			b.WriteString(lTest + ":" + nz.lineDir(cs.ifPos) + "if " + targets[cs.errIdx] + " != nil " + contText + "\n")
 		}
-		b.WriteString(strings.Join(us, ", ") + " = " + strings.Join(pl.rvars, ", "))
-	default:
-		b.WriteString("_ = 0")
+		if usedOK {
+			b.WriteString(lOK + ":\n")
+		}
+	} else if usedEnd {
+		b.WriteString(lEnd + ":\n")
 	}
+	if after != "" {
+		b.WriteString(after + "\n")
+	}
+	b.WriteString("_ = 0")
 	nz.inlined[h.f.Name]++
 	return b.String(), true
+}
+
+// inlineStmt: compatibility wrapper for generated single-target sites (`tmp := H(args)`).
+func (fc *fileCtx) inlineStmt(h *helper, call *ast.CallExpr, at token.Pos, prefix string, _ []string, _ bool) (string, bool) {
+	cs := &callSite{h: h, call: call, at: at, errIdx: -1}
+	if prefix != "" {
+		name := strings.TrimSpace(strings.TrimSuffix(strings.TrimSpace(prefix), ":="))
+		cs.lhsText = []string{name}
+		cs.tok = token.DEFINE
+	}
+	return fc.inlineSite(cs)
 }
 
 // inlineTail: `return H(args)`; the helper's returns are the caller's returns.
@@ -1170,4 +1352,57 @@ func (nz *normalizer) dropInlinedHelpers() map[string][]srcEdit {
 		out[tf.Name()] = append(out[tf.Name()], srcEdit{tf.Offset(start), tf.Offset(f.Decl.End()), nz.lineDir(f.Decl.End())})
 	}
 	return out
+}
+
+// errTestIndex: cond is exactly `<v> != nil` for a target v of error type;
+// returns v's position among the targets, or -1.
+func (fc *fileCtx) errTestIndex(cond ast.Expr, lhs []ast.Expr) int {
+	info := fc.pk.Info
+	be, ok := ast.Unparen(cond).(*ast.BinaryExpr)
+	if !ok || be.Op != token.NEQ {
+		return -1
+	}
+	v := be.X
+	if isNilIdent(info, be.X) {
+		v = be.Y
+	} else if !isNilIdent(info, be.Y) {
+		return -1
+	}
+	vo := objOf(info, v)
+	if vo == nil || !isErrorType(vo.Type()) {
+		return -1
+	}
+	for i, l := range lhs {
+		if id, isId := l.(*ast.Ident); isId && id.Name != "_" && objOf(info, id) == vo {
+			return i
+		}
+	}
+	return -1
+}
+
+// rewritePair: `targets := H(args)` immediately followed by `if err != nil { terminating }`.
+func (fc *fileCtx) rewritePair(a, b ast.Stmt) []srcEdit {
+	as, ok := a.(*ast.AssignStmt)
+	if !ok || len(as.Rhs) != 1 || (as.Tok != token.DEFINE && as.Tok != token.ASSIGN) {
+		return nil
+	}
+	ifs, ok := b.(*ast.IfStmt)
+	if !ok || ifs.Init != nil || ifs.Else != nil || !isTerminating(ifs.Body) {
+		return nil
+	}
+	call, _ := ast.Unparen(as.Rhs[0]).(*ast.CallExpr)
+	h := fc.candidateCall(call)
+	if h == nil || h.results != len(as.Lhs) {
+		return nil
+	}
+	idx := fc.errTestIndex(ifs.Cond, as.Lhs)
+	if idx < 0 {
+		return nil
+	}
+	cs := &callSite{h: h, call: call, at: as.Pos(), lhs: as.Lhs, tok: as.Tok, cont: ifs.Body, errIdx: idx, ifPos: ifs.Pos()}
+	txt, ok := fc.inlineSite(cs)
+	if !ok {
+		return nil
+	}
+	return []srcEdit{{fc.off(as.Pos()), fc.off(ifs.End()), txt + fc.nz.lineDir(ifs.End())}}
 }
